@@ -366,9 +366,9 @@ var C11Groups = []C11Group{
 	// ---- statements
 	{Name: "must-use", Kind: 's', Needs: []string{"mu"}, Control: "_ = mu(1);", OrderDep: true,
 		Offs: offs("must-use-discarded", "user-fn", "mu(1);", "builtin", "min(1, 2);")},
-	{Name: "const-assert", Kind: 's', Control: "const_assert 2 > 1;",
+	{Name: "const-assert", Kind: 's', ModOK: true, Control: "const_assert 2 > 1;",
 		Offs: offs("const-assert-false", "false", "const_assert false;", "1>2", "const_assert 1 > 2;", "parenthesised", "const_assert(1 == 2);")},
-	{Name: "const-assert-const", Kind: 's', Needs: []string{"KC"}, Control: "const_assert KC == 4;", OrderDep: true,
+	{Name: "const-assert-const", Kind: 's', ModOK: true, Needs: []string{"KC"}, Control: "const_assert KC == 4;", OrderDep: true,
 		Offs: offs("const-assert-false", "module-const", "const_assert KC == 1;")},
 	{Name: "stmt-call", Kind: 's', Needs: []string{"sink"}, Control: "sink(1);", OrderDep: true,
 		Offs: cat(offs("call-arg-count", "stmt-too-few", "sink();", "stmt-too-many", "sink(1, 2);"),
